@@ -280,11 +280,43 @@ class Cmp:
             self.same(where + ".perm[%s]" % k, x, y)
 
 
+# ------------------------------------------------------------------ tables with their own indices
+def gen_extra_dates(rng, dates, force=False):
+    """dates (ISO) a unit-risk table may have besides the data dates: a longer history (leading rows), calendar days
+    between two data dates that are not data dates (week-ends, mid-week days of a weekly calendar), trailing rows.
+    Every data date stays a row of the table (unit_risk is a dict of independent frames: each is looked up by label)."""
+    idx = pd.DatetimeIndex(dates)
+    have = set(idx)
+    out = []
+    if force or rng.random() < 0.6:
+        for k in range(1, rng.randint(1, 3) + 1):
+            out.append(idx[0] - pd.Timedelta(days=k))
+    for a, b in zip(idx[:-1], idx[1:]):
+        gap = (b - a).days
+        if gap > 1 and rng.random() < 0.5:
+            for k in sorted(rng.sample(range(1, gap), rng.randint(1, min(2, gap - 1)))):
+                out.append(a + pd.Timedelta(days=k))
+    if rng.random() < 0.3:
+        out.append(idx[-1] + pd.Timedelta(days=rng.randint(1, 3)))
+    return sorted({str(d.date()) for d in out if d not in have})
+
+
+def table_frame(dates, cols, extra_rows=None):
+    """DataFrame of one measure: data dates x securities plus the table's own extra rows [[iso date, {sec: value}], ...]"""
+    df = pd.DataFrame({c: [np.nan if v is None else v for v in col] for c, col in cols.items()}, index=pd.DatetimeIndex(dates), dtype=float)
+    if extra_rows:
+        ex = pd.DataFrame({c: [np.nan if r[1].get(c) is None else r[1][c] for r in extra_rows] for c in cols},
+                          index=pd.DatetimeIndex([r[0] for r in extra_rows]), dtype=float)
+        df = pd.concat([df, ex]).sort_index()
+    return df
+
+
 # ------------------------------------------------------------------ a self-contained risk backtest (also used by the C04 twin runs)
 def gen_risk_backtest_spec(rng, T=None):
     """-> JSON-able spec of a FixedIncomeStrategy backtest whose stack is
     [scripted trades, UpdateRisk(m, history) for every measure, SelectThese(hedges), HedgeRisks(measures, pseudo),
-     UpdateRisk(m, history) for every measure] over unit-risk tables that change on every date.
+     UpdateRisk(m, history) for every measure] over unit-risk tables that change on every date and have their own
+    indices (spec['extra_rows'][m]: leading / in-between / trailing rows besides the data dates).
     `rng` is a random.Random; T the number of dates (default 6..10)."""
     T = T or rng.randint(6, 10)
     start = pd.Timestamp(rng.choice(["2021-03-01", "2020-02-24", "2022-12-26"])) + pd.Timedelta(days=rng.randint(0, 20))
@@ -316,6 +348,13 @@ def gen_risk_backtest_spec(rng, T=None):
             base = (3.0 + i) if i == j else rng.uniform(-0.8, 0.8)
             cols[h["sec"]] = [base * (1.0 + 0.05 * t) + (0.02 * rng.uniform(-1, 1) if i != j else 0.1 * rng.uniform(0, 1)) for t in range(T)]
         unit[m] = cols
+    # the measures' tables have their own indices (longer histories, in-between dates); values there are far off
+    extra = {}
+    for j, m in enumerate(measures):
+        if rng.random() < 0.75 or (k > 1 and j == 0):
+            ds = gen_extra_dates(rng, dates, force=(j == 0 and k > 1))
+            if ds:
+                extra[m] = [[d, {nm: rng.uniform(-40.0, 60.0) for nm in unit[m]}] for d in ds]
     integer = rng.random() < 0.5
     trades = {}
     for t, d in enumerate(dates):
@@ -329,7 +368,7 @@ def gen_risk_backtest_spec(rng, T=None):
     return {"dates": dates, "prices": prices, "bonds": bonds, "hedges": hedges, "measures": measures, "unit_risk": unit,
             "trades": trades, "history": rng.choice([1, 2, 2]), "pseudo": rng.random() < 0.3,
             "hedge_on": None if rng.random() < 0.6 else sorted(rng.sample(range(T), max(2, T // 2))),
-            "integer": integer, "capital": 1e7}
+            "integer": integer, "capital": 1e7, "extra_rows": extra}
 
 
 def _cut_index(spec, perturb_after):
@@ -353,7 +392,11 @@ def risk_backtest_tables(spec, perturb_after=None, perturb=None):
         data = {}
         for nm, col in cols.items():
             data[nm] = [(f(m, nm, i, v) if (cut is not None and i > cut) else v) for i, v in enumerate(col)]
-        out[m] = pd.DataFrame(data, index=idx, dtype=float)
+        extra = []
+        for d, row in (spec.get("extra_rows") or {}).get(m, []):      # the table's own rows: perturbed when dated after the cut
+            late = cut is not None and pd.Timestamp(d) > idx[cut] if cut is not None and cut >= 0 else cut is not None
+            extra.append([d, {nm: (f(m, nm, -1, v) if late else v) for nm, v in row.items()}])
+        out[m] = table_frame(spec["dates"], data, extra)
     return out
 
 
